@@ -198,7 +198,7 @@ is 0x00 and reads it as the 64-byte default-type signature; `to_vec` then prints
 def schnorrView (tap : Bool) (sig : Bytes) : Bytes :=
   if tap && sig.length == 65 && sig.getLast? == some 0 then sig.take 64 else sig
 
-def interpEnv (t : Tables) (ctx : Ctx) (dom lt sq : Nat) : Interp.IEnv where
+def interpEnv (t : Tables) (ctx : Ctx) (dom ver lt sq : Nat) : Interp.IEnv where
   verifySig pk sig := t.dsigs.contains (dom, pk, schnorrView (ctx == .tap) sig)
   keyParse pk :=
     if ctx == .tap then pk.length == 32
@@ -208,6 +208,7 @@ def interpEnv (t : Tables) (ctx : Ctx) (dom lt sq : Nat) : Interp.IEnv where
   hash k := realHash (hkOp k)
   lockTime := lt
   sequence := sq
+  txVersion := ver
 
 def showIErr : Interp.IErr → String
   | .unexpectedStackEnd => "UnexpectedStackEnd"
@@ -273,14 +274,14 @@ def opsInterp (t : Tables) (kind op : String) (args : List String) : Option Stri
       | some ex =>
         if ex == reported then "ok"
         else "bad:reported[" ++ ",".intercalate reported ++ "]executed[" ++ ",".intercalate ex ++ "]")
-  -- C interp <ctx> <dom> <lt> <sq> <ast> <stack, bottom first>
+  -- C interp <ctx> <dom> <ver> <lt> <sq> <ast> <stack, bottom first>
   | "C", "interp" =>
     match args with
-    | [ctx, dom, lt, sq, ast, st] => do
-      let ctx ← parseCtx ctx; let dom ← dom.toNat?; let lt ← lt.toNat?; let sq ← sq.toNat?
+    | [ctx, dom, ver, lt, sq, ast, st] => do
+      let ctx ← parseCtx ctx; let dom ← dom.toNat?; let ver ← ver.toNat?; let lt ← lt.toNat?; let sq ← sq.toNat?
       let ms ← parseAst ast; let st ← parseHexList st
       let a : Interp.AStack := st.reverse.map Interp.Elem.ofBytes
-      pure (match Interp.interpTop t.keyEnv (interpEnv t ctx dom lt sq) ms a with
+      pure (match Interp.interpTop t.keyEnv (interpEnv t ctx dom ver lt sq) ms a with
         | .ok cs => "accept " ++ (if cs.isEmpty then "-" else ",".intercalate (cs.map (showConstraint (ctx == .tap))))
         | .error e => "reject:" ++ showIErr e)
     | _ => none
